@@ -36,6 +36,10 @@ def jobs(tier, seed):
             js.append({"label": f"{spec[0]}{spec[1]}|all-orders", "wl": spec, "budget": {}})
         for spec in CANCEL:
             js.append({"label": f"{spec[0]}{spec[1]}|cancel1", "wl": spec, "budget": {"cancel": 1}})
+        for spec in [wl("chain3"), wl("multitask"), wl("fail_mid"), wl("poll", 1)]:
+            js.append({"label": f"{spec[0]}{spec[1]}|pause1,unpause1", "wl": spec, "budget": {"pause": 1, "unpause": 1}})
+        for spec in [wl("chain3"), wl("fail_mid"), wl("continue_on_fail")]:
+            js.append({"label": f"{spec[0]}{spec[1]}|oprestart1", "wl": spec, "budget": {"oprestart": 1}})
         for spec in [wl("diamond"), wl("multitask"), wl("jump_cycle", 2, 1)]:
             js.append({"label": f"{spec[0]}{spec[1]}|sweep1", "wl": spec, "budget": {"sweep": 1}})
         for spec in [wl("diamond"), wl("fail_mid"), wl("jump_cycle", 2, 1), wl("synthetic")]:
